@@ -8,4 +8,5 @@ Extraction "model.ml" hashcom_hash_key hashcom_input hashcom_commit hashcom_open
   ped_new_key ped_std_key ped_commit ped_open ped_new_tkey ped_export ped_tcommit ped_equivocate
   int_commit int_open int_equivocate_ok int_witness_in_range
   eg_enc eg_open hrun ped_scheme int_scheme eg_scheme
+  ped_key_eqb ped_tkey_eqb int_key_eqb int_tkey_eqb eg_key_eqb lf_eqb lf_norm bytes_eqb
   crun new_transcript extract_call.
